@@ -436,7 +436,10 @@ func genC02(r *vh.Runner) {
 	const chunk = 48
 	masks := []byte{0} // 0 = one seed-chosen non-zero mask per offset
 	if r.Thorough() {
-		masks = []byte{0x01, 0x02, 0x04, 0x08, 0x10, 0x20, 0x40, 0x80, 0xFF, 0, 0}
+		masks = nil // every non-zero mask: the single-byte tamper space is enumerated completely
+		for m := 1; m < 256; m++ {
+			masks = append(masks, byte(m))
+		}
 	}
 	type modeSpec struct {
 		hidden bool
